@@ -358,4 +358,17 @@ theorem wm_full_load_ne_level :
   rw [wm_core_load_ne_level0.2.2] at h2
   cases h2
 
+
+/-- `WaveletMatrix::load` translated over the TRANSLATED core loader (`Generated/FnsLoad3.lean`) is the text `wmLoadT`… -/
+theorem wm_load_full_eq_wmLoadT (m : Mode) (es : Elems) : gen_WaveletMatrix_load_full m es = wmLoadT m es := rfl
+
+/-- … hence the model's loader, on every stream on which the level loads and the final integer-vector load stay inside
+`usize` -/
+theorem wm_load_full_eq (m : Mode) (es : Elems) (h : WmFullOk es) : gen_WaveletMatrix_load_full m es = wmC.load es :=
+  (wm_load_full_eq_wmLoadT m es).trans (wm_full_load_eq m es h)
+
+theorem wm_load_full_eq_small (m : Mode) (es : Elems) (h : ∀ w ∈ es, w.toNat < 2 ^ 32) :
+    gen_WaveletMatrix_load_full m es = wmC.load es :=
+  (wm_load_full_eq_wmLoadT m es).trans (wm_full_load_eq_small m es h)
+
 end Sds.GenEq
